@@ -121,7 +121,8 @@ def render(f, main):
         for k in ids:
             out.append(f"    .text\n    .globl fn_{k}\n    .type fn_{k}, @function\nfn_{k}:\n    mov pos(%rip), %rax\n    lea buf(%rip), %rcx\n"
                        f"    movb ${k}, (%rcx,%rax)\n    incq pos(%rip)\n    ret\n    .size fn_{k}, .-fn_{k}\n")
-        out.append(f'    .section {name},"aw",{sec_type(name)}\n    .balign 8\n')
+        # some producers (old toolchains, clang's integrated assembler given an explicit type) emit the array sections as SHT_PROGBITS
+        out.append(f'    .section {name},"aw",{"@progbits" if f.get("progbits") else sec_type(name)}\n    .balign 8\n')
         for k in ids:
             out.append(f"    .quad fn_{k}\n")
     return "".join(out)
@@ -253,6 +254,9 @@ def gen_files(r, klass):
         for name, ids in f["secs"]:
             merged.setdefault(name, []).extend(ids)
         f["secs"] = list(merged.items())
+    for k, f in enumerate(files):
+        if k > 0 and r.chance(1, 5):
+            f["progbits"] = True
     return files
 
 
@@ -279,7 +283,7 @@ def gnu_file_order(files):
 
 def build(d, files):
     os.makedirs(d, exist_ok=True)
-    objs = [lu.asm_obj(d, f"f{k}", render(f, k == 0)) for k, f in enumerate(files)]
+    objs = [lu.asm_obj(d, f"f{k}", render(f, k == 0), target="x86_64-linux-gnu" if f.get("progbits") else None) for k, f in enumerate(files)]
     line = []
     k = 0
     while k < len(files):
